@@ -1462,3 +1462,82 @@ func closureUses(fn *ssa.Function) []ssa.Instruction {
 	})
 	return out
 }
+
+// ---------------------------------------------------------------------------------------------------------------
+// C18.record: the policy tells the sketch about every access and every new entry
+// ---------------------------------------------------------------------------------------------------------------
+
+func ruleC18Record(cx *Ctx) {
+	const rule = "C18.record"
+	cx.R.Rule(rule, 3, "policy.access and policy.add record the entry's key in the sketch exactly once on every returning path, whatever queue the entry is (or is not yet) linked in; every read drained from the read buffer reaches policy.access when a size bound is configured - an estimate can only be at least the number of recordings if every access is a recording")
+	inc := cx.need(rule, "", "sketch", "increment")
+	if inc == nil {
+		return
+	}
+	for _, m := range []string{"access", "add"} {
+		fn := cx.need(rule, "", "policy", m)
+		if fn == nil {
+			continue
+		}
+		isInc := func(in ssa.Instruction) bool {
+			if !isCallTo(in, inc) {
+				return false
+			}
+			// of the handler's own node
+			args := callArgs(in)
+			if len(args) == 0 {
+				return false
+			}
+			c, ok := stripConv(args[len(args)-1]).(*ssa.Call)
+			return ok && c.Call.IsInvoke() && c.Call.Method.Name() == "Key" && paramIndexOf(c.Call.Value) == 1
+		}
+		memo := map[*ssa.Function]int{}
+		ev := func(in ssa.Instruction) int {
+			if isInc(in) {
+				return 1
+			}
+			if c := calleeOf(in); c != nil && len(c.Blocks) > 0 && c.Pkg != nil && strings.HasPrefix(c.Pkg.Pkg.Path(), modPath) {
+				// a helper that records its argument's key on all of its paths
+				helperInc := func(x ssa.Instruction) bool { return isCallTo(x, inc) }
+				if mustPerform(c, helperInc, memo) {
+					return 1
+				}
+			}
+			return 0
+		}
+		ok, n := true, 0
+		var wit []string
+		for _, ex := range CountOnPaths(fn, Pt{fn.Blocks[0], 0}, ev, nil) {
+			if _, isRet := ex.Exit.(*ssa.Return); !isRet {
+				continue
+			}
+			n++
+			if ex.Count != 1 {
+				ok, wit = false, ex.Witness
+			}
+		}
+		cx.R.Check(ok && n > 0, rule, "(*policy)."+m, "records the key exactly once on every path", cx.P.Pos(fn.Pos()), "sketch.increment(n.Key()) runs once on every returning path of "+m, wit...)
+	}
+	// the drained read reaches policy.access under withEviction
+	acc := cx.P.Func("", "policy", "access")
+	oa := cx.need(rule, "", "cache", "onAccess")
+	if acc != nil && oa != nil {
+		okA := false
+		allInstrs(oa, func(in ssa.Instruction) {
+			if isCallTo(in, acc) && paramIndexOf(callArgs(in)[len(callArgs(in))-1]) == 1 {
+				gs := guardsAt(in.Block())
+				only := true
+				for _, g := range gs {
+					f := fieldOf(g.Cond)
+					if f == nil || fname(f) != "withEviction" || !g.Truth {
+						only = false
+					}
+				}
+				if only {
+					okA = true
+				}
+			}
+		})
+		cx.R.Check(okA, rule, "(*cache).onAccess", "hands the node to policy.access", cx.P.Pos(oa.Pos()), "a drained read is recorded by the policy whenever a size bound is configured, under no other condition")
+	}
+}
